@@ -1,5 +1,26 @@
 (* Model of internal/parser/cpp_generator.go at the level of the codec IR.
-   Faithful to the code, defects included.  Model only: no proofs here. *)
+   Faithful to the code, defects included.  Model only: no proofs here.
+
+   One header (include/<snake root>.hpp) holds every packet: generateHppFile emits the
+   non-root packets in declaration order and then the root packet; generateCodeForPacket
+   first emits (once per *name*, hasGen) the packets its object fields and match pairs refer
+   to.  With unique type names (codec.modelled) every packet of the tree is emitted exactly
+   once, so the prog is the same tree walk as for Go; the order inside the file is not part
+   of the IR.
+
+   Conventions used below (see harness/IR.md and harness/extract_cpp.py):
+   - the width and byte order of a scalar step are those of the buf.write_<x>/read_<x>
+     method that is named: <x> is a key of cppBasicTypeMap (big-endian) or its Le column;
+     the Le column of i8/u8 is "i8"/"u8" (no _le suffix), so those steps have le = false
+     whatever the configuration.  A name outside the map ("" or e.g. "char") is no method
+     of the runtime: width 0 (the IR has no "does not compile" step);
+   - the codec::write_..._le / read_..._le helpers carry the byte order in their name
+     (prefix and elements);
+   - x->encode(buf) on a member that is not a std::unique_ptr is ill-typed: ENone (inside the
+     ESpan of a length-of target, where it makes the span fail);
+   - MessageFactory (runtime, not in the repository): a later REGISTER_MESSAGE of a key
+     replaces an earlier one (first_wins = false) and create() of an unknown key signals an
+     error (unk_err = true) - the assumption cpp_factory_unknown_key_throws of DESIGN.md. *)
 From FP Require Export Common.
 Open Scope string_scope.
 Open Scope list_scope.
@@ -7,5 +28,220 @@ Open Scope list_scope.
 Section Cpp.
   Variable M : bmodel.
 
-  Definition gen_cpp : prog := [].
+  (* GetPadding + "if !padding.IsDefault()" *)
+  Definition cpp_pad := padarg_of norm_cpp M.
+
+  (* cppBasicTypeMap has exactly the ten numeric keys: ty_width is defined on the same keys and
+     gives the Size column (= width of the Name column's C++ type) *)
+  Definition cpp_in_map (t : string) : bool :=
+    match ty_width t with Some _ => true | None => false end.
+
+  (* the method suffix emitted for type key [t]: "buf.write_" ++ t (big-endian) or
+     "buf.write_" ++ cppBasicTypeMap[t].Le (little-endian), as (width, name ends in _le) *)
+  Definition cpp_meth (le : bool) (t : option string) : nat * bool :=
+    match t with
+    | None => (0%nat, false)
+    | Some t => match ty_width t with
+                | Some w => (w, andb le (negb (Nat.eqb w 1)))      (* Le of i8/u8 is "i8"/"u8" *)
+                | None => (0%nat, false)                            (* write_<not a method> / write_ *)
+                end
+    end.
+
+  (* width of cppBasicTypeMap[t].Name as a template argument ("" when t is not a key) *)
+  Definition cpp_name_w (t : option string) : nat :=
+    match t with Some t => opt_w (ty_width t) | None => 0%nat end.
+
+  (* width of static_cast<cppBasicTypeMap[t].BasicType>: int / unsigned int / float / double / "" *)
+  Definition cpp_cast_w (t : option string) : nat :=
+    match t with
+    | Some t => if String.eqb t "f64" then 8%nat else if cpp_in_map t then 4%nat else 0%nat
+    | None => 0%nat
+    end.
+
+  (* a position variable is named ToLowerCamel(field name) ++ "Pos": the member it denotes *)
+  Definition cpp_lc_index (p : packet) (n : string) : nat :=
+    match index_where (fun n' => String.eqb (lcamel M n') (lcamel M n)) (p_fields p) 0 with
+    | Some i => i
+    | None => undefined_mark
+    end.
+
+  (* is "auto <v>Pos = buf.writer_index();" emitted for one of the first [k] fields ?  (the
+     LengthFieldAttribute case of the switch, which the length-of target test precedes) *)
+  Fixpoint cpp_pos_defined (v : string) (fs : list field) (k : nat) : bool :=
+    match k, fs with
+    | S k', g :: r =>
+        orb (match f_len g, f_attr g with
+             | LTarget, _ => false
+             | _, ALen _ _ => String.eqb (lcamel M (f_name g)) v
+             | _, _ => false
+             end) (cpp_pos_defined v r k')
+    | _, _ => false
+    end.
+
+  (* generateEncode, "if lf, ok := f.LenAttr.(*model.LengthFieldAttribute); ok { ...; continue }" *)
+  Definition cpp_enc_target (p : packet) (i : nat) (f : field) : list (nat * estep) :=
+    let le := le_of M in
+    (* "<f>->encode(buf)" whatever the attribute: well-typed only on the unique_ptr of a match member *)
+    let inner := match f_attr f, f_rep f with
+                 | AMatch _ _ _, false => EDyn
+                 | _, _ => ENone "-> on a member that is not a pointer"
+                 end in
+    match p_lenf p, len_field_index p with
+    | Some ln, Some li =>
+        match nth_error (p_fields p) li with
+        | Some lf =>
+            (* typ = cppBasicTypeMap[lf.GetType()], lf = f.LenAttr = the attribute of p.LengthField
+               (before or after the visitor replaced it: the same key up to getBasicType);
+               little-endian: write_<typ.Le>_at, otherwise write_<p.LengthField.GetType()>_at *)
+            let aty := attr_get_type (f_attr lf) in
+            let m := if le then cpp_meth true aty else cpp_meth false (field_get_type lf) in
+            (* "<ToLowerCamel(p.LengthField.Name)>Pos", defined by the placeholder of the length field
+               if that was emitted earlier in the body.  ("<ToLowerCamel(lf.TragetField.Name)>Len_"
+               is a local the same statement pair defines and uses.) *)
+            let mark := if cpp_pos_defined (lcamel M ln) (p_fields p) i then cpp_lc_index p ln else undefined_mark in
+            [(i, ESpan inner i); (i, EPatch mark i (fst m) (snd m) (cpp_cast_w aty) None)]
+        | None => [(i, ENone "unresolved")]
+        end
+    | _, _ => [(i, ENone "unresolved")]                    (* p.LengthField.Name: nil dereference *)
+    end.
+
+  (* generateEncode, the switch on f.Attr *)
+  Definition cpp_enc_field (path : string) (p : packet) (i : nat) (f : field) : list (nat * estep) :=
+    let le := le_of M in
+    let lw := cfg_list_w M in
+    let ft := field_get_type f in
+    let m := cpp_meth le ft in
+    match f_len f with
+    | LTarget => cpp_enc_target p i f
+    | _ =>
+      match f_attr f with
+      | ALen _ _ =>
+          (* "auto <f>Pos = buf.writer_index(); buf.write_<ty>(0);" - named after the length field itself *)
+          let li := cpp_lc_index p (f_name f) in [(li, EMarkZero li (fst m) (snd m))]
+      | ACheck alg _ => [(i, ECheck alg (fst m) (snd m))]           (* IsRepeat is not looked at *)
+      | ABasic _ =>
+          [(i, if f_rep f then EList lw le le (EInt (cpp_name_w ft) le) else EInt (fst m) (snd m))]
+      | AFixed n _ =>
+          let s := EFixed n (cpp_pad (f_attr f)) in
+          [(i, if f_rep f then EList lw le le s else s)]
+      | ADyn =>
+          let s := EStr (cfg_str_w M) le le in
+          [(i, if f_rep f then EList lw le le s else s)]
+      | AObj _ _ _ _ =>
+          [(i, match obj_path path f with
+               | Some ty => if f_rep f then EList lw le le (EObj ty) else EObj ty
+               | None => ENone "unresolved"
+               end)]
+      | AMatch _ _ _ =>
+          [(i, if f_rep f then ENone "-> on a member that is not a pointer" else EDyn)]
+      | ANil => [(i, ENone "unresolved")]          (* default: f.GetType() on a nil Attr panics before the marker *)
+      end
+    end.
+
+  (* the Name column of cppBasicTypeMap *)
+  Definition cpp_name (t : string) : string :=
+    if String.eqb t "i8" then "int8_t" else if String.eqb t "i16" then "int16_t"
+    else if String.eqb t "i32" then "int32_t" else if String.eqb t "i64" then "int64_t"
+    else if String.eqb t "u8" then "uint8_t" else if String.eqb t "u16" then "uint16_t"
+    else if String.eqb t "u32" then "uint32_t" else if String.eqb t "u64" then "uint64_t"
+    else if String.eqb t "f32" then "float" else if String.eqb t "f64" then "double"
+    else "".
+
+  (* getFieldType: the declared type of a member (None = f.GetType() panics) *)
+  Definition cpp_field_type (f : field) : option string :=
+    let wrap := fun t => if f_rep f then ("std::vector<" ++ t ++ ">")%string else t in
+    match f_attr f with
+    | ABasic _ | ALen _ _ | ACheck _ _ =>
+        match field_get_type f with Some t => Some (wrap (cpp_name t)) | None => None end
+    | AFixed _ _ | ADyn => Some (wrap "std::string")
+    | AMatch _ _ _ => Some (wrap "std::unique_ptr<codec::BinaryCodec>")
+    | AObj _ _ _ _ | ANil => match field_get_type f with Some t => Some (wrap t) | None => None end
+    end.
+
+  Definition cpp_ostr_eqb (a b : option string) : bool :=
+    match a, b with
+    | Some x, Some y => String.eqb x y
+    | None, None => true
+    | _, _ => false
+    end.
+
+  (* the factory "<ToCamel(p.Name)>MessageFactory": one block per key of p.MatchFields in sorted key
+     order, all of them declaring ("struct <P>Tag{}; using <P>MessageFactory = MessageFactory<key type, ...>")
+     and registering into the same factory name *)
+  Definition cpp_table (p : packet) : list (string * string) :=
+    flat_map (fun '(_, pairs) => map (fun mp => (mp_key mp, mp_value mp)) pairs) (p_mfs p).
+
+  (* the key types the alias is declared with: getFieldType(p.FieldMap[key]) for every key *)
+  Definition cpp_factory_key_types (p : packet) : list (option string) :=
+    map (fun '(k, _) => match field_map p k with Some f => cpp_field_type f | None => None end) (p_mfs p).
+
+  (* generateDecode *)
+  Definition cpp_dec_field (path : string) (p : packet) (f : field) : dstep :=
+    let le := le_of M in
+    let lw := cfg_list_w M in
+    match f_attr f with
+    | ABasic _ | ALen _ _ | ACheck _ _ =>
+        match field_get_type f with
+        | Some t =>
+            match ty_width t with                       (* "if typ, ok := cppBasicTypeMap[f.GetType()]; ok" *)
+            | Some w => if f_rep f then DList lw le false (DInt w le)
+                        else let m := cpp_meth le (Some t) in DInt (fst m) (snd m)
+            | None => DNone "omitted"
+            end
+        | None => DNone "unresolved"
+        end
+    | AFixed n _ =>
+        let s := DFixed n (cpp_pad (f_attr f)) in
+        if f_rep f then DList lw le false s else s
+    | ADyn =>
+        let s := DStr (cfg_str_w M) le false in
+        if f_rep f then DList lw le false s else s
+    | AObj _ _ _ _ =>
+        (* read_object_List<P, f.GetType()> : the member's own type name *)
+        match obj_path path f with
+        | Some ty => if f_rep f then DList lw le false (DObj ty) else DObj ty
+        | None => DNone "unresolved"
+        end
+    | AMatch (Some k) _ _ =>
+        (* "<f> = <ToCamel(p.Name)>MessageFactory::getInstance().create(<ToLowerCamel(key)>); <f>->decode(buf);" *)
+        match cpp_factory_key_types p with
+        | [] => DNone "undeclared factory"              (* inline packets have no MatchFields *)
+        | None :: _ => DNone "unresolved key"           (* getFieldType(nil) *)
+        | kt :: kts =>
+            if negb (forallb (cpp_ostr_eqb kt) kts) then DNone "conflicting declarations of the factory alias" else
+            if f_rep f then DNone "-> on a member that is not a pointer" else
+            match index_where (fun n => String.eqb (lcamel M n) (lcamel M k)) (p_fields p) 0 with
+            | Some ki => DDispatch (cpp_table p) false ki true
+            | None => DNone "unresolved key"
+            end
+        end
+    | AMatch None _ _ => DNone "unresolved key"
+    | ANil => DNone "unresolved"
+    end.
+
+  Fixpoint cpp_number {A} (i : nat) (l : list A) : list (nat * A) :=
+    match l with [] => [] | x :: r => (i, x) :: cpp_number (S i) r end.
+
+  Definition cpp_ir (path : string) (p : packet) : pkt_ir :=
+    let fs := cpp_number 0 (p_fields p) in
+    mkPkt (length (p_fields p))
+          (flat_map (fun '(i, f) => cpp_enc_field path p i f) fs)
+          (map (fun '(i, f) => (i, cpp_dec_field path p f)) fs).
+
+  Fixpoint cpp_packet (path : string) (p : packet) {struct p} : prog :=
+    match p with
+    | mkPacket _ _ _ fs _ =>
+        (fix inl (fs : list field) : prog :=
+           match fs with
+           | [] => []
+           | mkField fname (AObj true _ _ (Some q)) _ _ :: r => cpp_packet (path_join path fname) q ++ inl r
+           | _ :: r => inl r
+           end) fs ++ [(path, cpp_ir path p)]
+    end.
+
+  Definition gen_cpp : prog :=
+    match m_root M with
+    | None => []                                       (* binModel.RootPacket.Name: nil dereference *)
+    | Some _ => flat_map (fun p => cpp_packet (p_name p) p) (m_packets M)
+    end.
 End Cpp.
